@@ -60,6 +60,19 @@ def _replay(job):
             F = BADS(lambda x: float(np.sum(np.asarray(x) ** 2)) + 0.1 * float(np.random.normal()),
                      None, np.full((1, 3), -3.0), np.full((1, 3), 3.0), np.full((1, 3), -1.0), np.full((1, 3), 1.0),
                      options=fo)
+        elif op in ("FCsD", "FCuD"):
+            # same dimension and box as T, the OTHER noise mode and another initial-design size
+            fo = {"display": "off", "max_fun_evals": 50, "fun_eval_start": 7}
+            if op == "FCsD":
+                fo["random_seed"] = 777
+            if k["noisy"]:
+                ff = lambda x: float(np.sum((np.asarray(x) + 0.3) ** 2))
+            else:
+                ff = lambda x: float(np.sum((np.asarray(x) + 0.3) ** 2)) + 0.2 * float(np.random.normal())
+                fo["uncertainty_handling"] = True
+                fo["noise_final_samples"] = 2
+            F = BADS(ff, np.array([[1.5, -1.0]]), np.array([[-5.0, -5.0]]), np.array([[5.0, 5.0]]),
+                     np.array([[-2.0, -2.0]]), np.array([[2.0, 2.0]]), options=fo)
         elif op == "FR":
             F.optimize()
     for op in sched:
